@@ -519,6 +519,21 @@ pub fn large_shape(d: &mut Dec, kind: u32, lo: u32, hi: u32) -> Shape {
             let a = Point::new(d.i(-span / 2, span / 2), d.i(-span / 2, span / 2));
             let b = a + Point::new(d.i(-span, span), d.i(-span, span));
             let c = a + Point::new(d.i(-span, span), d.i(-span, span));
+            // auxiliary word 6: half of the large triangles have the structure of drawn UI shapes: an edge
+            // parallel to an axis (flat top / bottom, vertical side), a right angle, an obtuse corner on a flat edge
+            let (b, c) = match d.aux_u(6, 0, 7) {
+                0..=3 => (b, c),
+                4 => (b, Point::new(c.x, b.y)),                       // b-c horizontal
+                5 => (Point::new(a.x, b.y), c),                       // a-b vertical
+                6 => (Point::new(a.x, b.y), Point::new(c.x, a.y)),    // right angle at a
+                _ => {
+                    // b-c horizontal and both on the same side of a horizontally: obtuse corner at the nearer one
+                    let dx1 = (b.x - a.x).abs().max(1);
+                    let dx2 = dx1 + (c.x - a.x).abs().max(1);
+                    let sgn = if b.x >= a.x { 1 } else { -1 };
+                    (Point::new(a.x + sgn * dx1, b.y), Point::new(a.x + sgn * dx2, b.y))
+                }
+            };
             Shape::Triangle(Triangle::new(a, b, c))
         }
         5 => {
